@@ -366,6 +366,10 @@ impl Check for C09 {
             .into()
     }
 
+    fn watchdog_secs(&self) -> u64 {
+        300 // (statistical experiments / child processes / real thread pools: single runs take seconds)
+    }
+
     fn runs(&self, tier: Tier) -> u64 {
         match tier {
             Tier::Quick => 300_000,
